@@ -13,6 +13,7 @@ struct nv_state
   _Bool    valid;     /* abstraction of valid(): value, point, gradient, constraint values all finite */
   double   m_fx;      /* the function value */
   double   dg;        /* ghost: m_gx . descent for the (single, fixed) descent direction of the harness */
+  double   gtest;     /* ghost: value of gradient_test() on this state's own (m_fx, m_gx): fixed by the evaluation */
   int32_t  m_status;
   int64_t  m_fcalls, m_gcalls;
 };
@@ -23,6 +24,8 @@ struct nv_tuple_f64_f64 { double _0; double _1; };
 struct nv_lstep { double t; double f; double g; };       /* lsearch_step_t */
 uint64_t nv_ver_counter;                                 /* ghost: source of fresh point identities */
 
+/* solver_status (include/nano/solver/status.h); only distinctness matters */
+enum { NVE_solver_status_max_iters = 0, NVE_solver_status_converged = 1, NVE_solver_status_failed = 2, NVE_solver_status_unfeasible = 3, NVE_solver_status_unbounded = 4 };
 static _Bool  nv_state_valid(const struct nv_state* s) { return s->valid; }
 static double nv_state_fx(const struct nv_state* s) { return s->m_fx; }
 static double nv_state_dg(const struct nv_state* s, const struct nv_vector* d) { return s->dg; }
